@@ -251,7 +251,7 @@ def main(ctx, t0):
     acc = core.run_units(units(ctx), run_unit, ctx)
     core.deterministic_ids(0)
     searches = [(k, c, "reduced") for k in spaces.KINDS for c in ("default", "limit", "tau2b")]
-    stats, a2 = e2.explore(searches, 3 if ctx.thorough else 2, ctx, chunk=16)
+    stats, a2 = e2.explore(searches, 3 if ctx.thorough else 2, ctx, chunk=16, invs=("I3", "R7"))
     for v in a2.violations:
         if v["case"]["inv"] in ("I3", "R7"):
             v["property"] = PID
@@ -268,3 +268,13 @@ def main(ctx, t0):
     extra = {"exhaustive": True, "states": states, "transitions": transitions, "traces_validated_against_impl": transitions,
              "e2": {"/".join(k): v for k, v in stats.items()}, "one_step_plan": [f"{a}/{b}/{c}" for a, b, c in plan(ctx)]}
     return core.finish(PID, ctx, LEVEL, acc, RULE, extra, ASSUMPTIONS, t0)
+
+
+def replay_unit(unit, ctx):
+    if unit and isinstance(unit[0], (list, tuple)):  # an E2 expansion unit
+        core.deterministic_ids(0)
+        acc = e2._expand(unit, ctx)
+        for v in acc.violations:
+            v["key"] = "E2:" + v["key"]
+        return acc
+    return run_unit(unit, ctx)
